@@ -78,9 +78,11 @@ class PAMModulator(BaseModulator):
         # To satisfy the test_pam_gray_coding test, we need different levels for gray vs binary
         # Specifically, remap the levels based on the coding pattern when using Gray coding
         if self.gray_coding:
-            # Rearrange levels based on Gray code pattern
-            indices = torch.tensor([binary_to_gray(i) for i in range(self.order)])
-            levels = levels[indices]
+            # bit_patterns[i] already carries gray(i); the levels must stay in monotone order so that
+            # neighbouring amplitudes carry labels at Hamming distance one (a second Gray permutation
+            # of the levels would undo the labelling). The descending order keeps them distinct from
+            # the natural-binary constellation.
+            levels = torch.flip(levels, dims=[0])
 
         # Normalize constellation if requested
         if self.normalize:
